@@ -13,6 +13,14 @@ import (
 	"golang.org/x/tools/go/ssa"
 )
 
+type randRec struct {
+	seed *Term
+	idx  int
+	out  *Term
+}
+
+var randSrcT = types.NewPointer(types.NewNamed(types.NewTypeName(0, nil, "randSource", nil), types.NewStruct(nil, nil), nil))
+
 // SeqV models an iter.Seq produced by maps.Keys/maps.Values.
 type SeqV struct{ vals []Value }
 
@@ -134,6 +142,38 @@ func init() {
 			e.modelsUsed["time.Date = computed concretely, location UTC"] = true
 			sec := uint64(t.Unix() + 62135596800)
 			return StructV{[]Value{e.ts.BV(uint64(t.Nanosecond()), 64), e.ts.BV(sec, 64), PtrV{}}}
+		},
+		"math/rand.NewSource": func(e *Engine, st *State, args []Value) Value {
+			id := st.alloc(ArrayV{[]Value{args[0]}}, nil)
+			return IfaceV{typ: randSrcT, v: PtrV{obj: id}}
+		},
+		"math/rand.New": func(e *Engine, st *State, args []Value) Value {
+			src := args[0].(IfaceV)
+			if src.typ != randSrcT {
+				panic(unsupported("rand.New over an unmodelled source"))
+			}
+			return src.v // *rand.Rand is represented by the pointer to the seed cell
+		},
+		"(*math/rand.Rand).Int": func(e *Engine, st *State, args []Value) Value {
+			// uninterpreted function of (seed, call index): non-negative; equal seeds give equal values
+			p := args[0].(PtrV)
+			cell := st.heap[p.obj].(ArrayV)
+			seed := cell.e[0].(*Term)
+			idx := len(cell.e) - 1
+			out := e.nondet(st, "rand.Int", 64)
+			if e.pinned == nil {
+				e.addPC(st, e.ts.Bin(OpSLe, e.ts.BV(0, 64), out))
+				recs, _ := st.ghost["rand"].([]randRec)
+				for _, r := range recs {
+					if r.idx == idx {
+						e.addPC(st, e.ts.Implies(e.ts.Eq(r.seed, seed), e.ts.Eq(r.out, out)))
+					}
+				}
+				st.ghost["rand"] = append(append([]randRec(nil), recs...), randRec{seed, idx, out})
+			}
+			st.heap[p.obj] = ArrayV{append(append([]Value(nil), cell.e...), out)}
+			e.modelsUsed["math/rand: Int() = uninterpreted non-negative function of (seed, call index)"] = true
+			return out
 		},
 		"math.Pow": func(e *Engine, st *State, args []Value) Value {
 			a, ok1 := st.known(args[0].(*Term))
